@@ -458,6 +458,17 @@ fn clash_variant(case: &FunCase) -> Option<String> {
 
 pub fn run(ctx: &Ctx, acc: &mut Acc) {
     let mut wd = Workdir::new(&format!("c14-{}", ctx.shard));
+    // the hand-written programs of the repository and the built-in ones
+    for (k, (name, src)) in super::corpus::all_sources().iter().enumerate() {
+        if k % ctx.nshards != ctx.shard {
+            continue;
+        }
+        acc.evaluations += 1;
+        if judge(acc, &mut wd, src, &format!("corpus {name}"), true) {
+            acc.count("corpus_programs_judged");
+            acc.nontrivial(crate::rng::hash_str(src));
+        }
+    }
     let max_cases: u64 = if ctx.quick() { 2_000 } else { 100_000_000 };
     let mut i = 0u64;
     while ctx.time_left() && i < max_cases {
